@@ -5,20 +5,20 @@ open Sexp
 
 type piped =
   | Rejected of string * string list        (* stage, messages *)
-  | Accepted of { parsed : term; elab : term; ty : term; ev : [ `Value of term | `Stuck of term | `NoEval ]; ctx_ok : bool; open_holes : int }
+  | Accepted of { parsed : term; elab : term; ty : term; ev : [ `Value of term | `Stuck of term | `NoEval ]; ctx_ok : bool; open_holes : int; raw : Sexp.t; parsed_sx : Sexp.t }
   | Other of string
 
 let parse_piped (res : Sexp.t) : piped =
   match res with
   | L (A (("lexerr" | "parseerr" | "typeerr") as st) :: ms) -> Rejected (st, List.map (fun m -> Gen_prog.string_of_hex (atom m)) ms)
   | L [ A "notutf8" ] -> Rejected ("notutf8", [])
-  | L [ A "ok"; p; e; t; ev; c; hk ] ->
+  | L [ A "ok"; p; e; t; ev; c; hk; raw ] ->
     let ev = (match ev with
         | L [ A "value"; v ] -> `Value (term_of_sexp v)
         | L [ A "stuck"; v ] -> `Stuck (term_of_sexp v)
         | _ -> `NoEval) in
     Accepted { parsed = term_of_sexp p; elab = term_of_sexp e; ty = term_of_sexp t; ev; ctx_ok = (atom c = "1");
-               open_holes = (match hk with L (A "hooks" :: oh :: _) -> int oh | _ -> -1) }
+               open_holes = (match hk with L (A "hooks" :: oh :: _) -> int oh | _ -> -1); raw; parsed_sx = p }
   | _ -> Other (Sexp.to_string res)
 
 let fuel_steps = nat_of_int 20000
@@ -52,3 +52,19 @@ let tags (case : Sexp.t) (res : Sexp.t) : string list =
         | `NoEval -> []) @
        (if has_hole a.elab then [ "unsolved-holes" ] else []))
   | _ -> []
+
+(* ---- the verified checker (Oracle/Infer.v, proved sound against Spec/Typing.v) as validator ---- *)
+let fuel_infer = nat_of_int 400
+
+let certify (t : term) : term option = infer fuel_infer [] t
+let conv_ok (a : term) (b : term) : bool option = convb fuel_infer [] a b
+
+(* `t` has type `ty` according to the proved checker: Some true / Some false / None = out of fuel *)
+let validate (t : term) (ty : term) : [ `Valid | `Illtyped of string | `Fuel ] =
+  match certify t with
+  | None -> `Illtyped "the verified checker rejects the term (or ran out of fuel)"
+  | Some ty' ->
+    (match conv_ok ty' ty with
+     | Some true -> `Valid
+     | Some false -> `Illtyped ("the verified checker infers " ^ Sexp.to_string (sexp_of_term ty') ^ ", not convertible with the reported type")
+     | None -> `Fuel)
